@@ -64,6 +64,10 @@ func (c *memberEventCoalescer) Flush(outCh chan<- Event) {
 		newEvent.Members = append(newEvent.Members, *cevent.Member)
 	}
 
+	// The quantum is over: members without a new event must not be
+	// reported again by the next flush
+	c.latestEvents = make(map[string]coalesceEvent)
+
 	// Send out those events
 	for _, event := range events {
 		outCh <- *event
